@@ -161,8 +161,8 @@ CLAIMED["C08"] = (
 CLAIMED["C17"] = (
     "MIR must-pass-through / who-may-call analysis of the eviction path (R-ORDER/R-FLOW), lock-order graph with read/write modes "
     "(R-LOCKORDER), recency refresh on every entry access (R-TOUCH), index-lock coverage of list operations (R-LOCKCOV.lru), clear() "
-    "completeness (R-CLEAR), no eviction before an in-place update (R-ORDER.evict) and "
-    "routing purity of the shard selector",
+    "completeness (R-CLEAR), no eviction before an in-place update (R-ORDER.evict), must-pass-through refresh of CacheBuffer's cached "
+    "(pointer, length) view after every reshaping of its Vec (R-CACHEDVIEW) and routing purity of the shard selector",
     "static rules over MIR: evict_lru invokes the callback exactly once on the entry it unlinks and only when the map is full; the "
     "locks of LruMap are acquired in one order; the shard for a key depends on the key and on no thread id / counter / clock",
     "structural clauses of C17; LRU order values, the capacity bound, page-cache byte equality and staleness after invalidation are "
